@@ -455,6 +455,9 @@ def minimize_lbfgsb(
     # upgrade the gradient and the past sequence of gradients accordingly
     if update_fun_def is not None:
         f0, f0_old, grad, G = update_fun_def(x, f0, copy.copy(f0), grad, X, G)
+        if len(X) > 0:
+            # restart: the sequence restored from the checkpoint may have been updated
+            X, G = make_X_and_G_respect_strong_wolfe(X, G, eps_SY, logger=logger)
 
     if len(X) > 0:
         # only happens if checkpoint is provided (L-BFGS-B restart)
